@@ -237,9 +237,11 @@ def run(ctx):
             sp = lex_spans(d, s)
             if not sp or len(sp) > 40:
                 continue
-            for t_, a_, b_ in sp:
+            for j_, (t_, a_, b_) in enumerate(sp):
                 alts = list(grammargen.EDGE.get(t_, []))
-                if t_ in ('DQUOTE_STRING', 'PARAMETER'):
+                if t_ in ('DQUOTE_STRING', 'PARAMETER') or (j_ > 0 and t_ == 'CREATE'):
+                    # (the shortest sentence of the `id` non-terminal is the keyword CREATE: a CREATE that does not open the
+                    # statement stands for a name)
                     alts += grammargen.EDGE['ID']
                 for v_ in alts:
                     txt = s[:a_] + v_ + s[b_:]
